@@ -362,6 +362,12 @@ func genOne(c *hx.Ctx, v variantSpec, i int) (Scen, bool) {
 			s.Opts.TxPerBlock = 2
 			s.Opts.Branchiness = 4
 		}
+		if s.Regime%3 != 2 && r.Chance(1, 3) && (strings.HasPrefix(v.attack, "honest") || strings.HasPrefix(v.attack, "blk-") || strings.HasPrefix(v.attack, "hdr-")) {
+			// forks that move siafunds and contracts below the require height: the victim's reorg onto the honest chain
+			// reverts and re-applies every kind of element
+			s.Opts.Kinds = []string{"v1-siafund", "v1-siafund", "v1-transfer", "v1-form", "v1-revise", "v1-proof", "v1-revise-window"}
+			s.Opts.TxPerBlock = 2 + r.Intn(2)
+		}
 		if r.Chance(1, 3) && v.attack != "two-mismatch-then-honest" {
 			s.Batch = 3
 		}
